@@ -123,6 +123,10 @@ func (ii *InsertionIndex) Marshal(w io.Writer) (uint64, error) {
 	}
 	l += 8
 
+	// The records are part of what is written: count them too.
+	cw := &countingWriter{w: w}
+	w = cw
+
 	var err error
 	iter := func(i llrb.Item) bool {
 		if err = cbor.Encode(w, i.(recordDigest).Record); err != nil {
@@ -131,7 +135,18 @@ func (ii *InsertionIndex) Marshal(w io.Writer) (uint64, error) {
 		return true
 	}
 	ii.items.AscendGreaterOrEqual(ii.items.Min(), iter)
-	return l, err
+	return l + cw.n, err
+}
+
+type countingWriter struct {
+	w io.Writer
+	n uint64
+}
+
+func (c *countingWriter) Write(p []byte) (int, error) {
+	n, err := c.w.Write(p)
+	c.n += uint64(n)
+	return n, err
 }
 
 func (ii *InsertionIndex) Unmarshal(r io.Reader) error {
